@@ -1,4 +1,5 @@
 import BddVerif.Lemmas.DotGraph
+import BddVerif.Lemmas.DotWrite
 /-!
 # C20 — the `.dot` export lists exactly the nodes and edges of the diagram
 
@@ -164,7 +165,37 @@ theorem dot_eval_den {A : Arr} {n : Nat} (hr : Red A n) (hw : WFo A n) (names : 
   rw [dot_eval_by_index hw names hn hnd pruned v]
   exact B.VS.evW_eq_ev hr hw v (root A) (root_lt hw)
 
+/-! ## `write_as_dot_string` into an arbitrary sink -/
+
+/-- the chunking of the sink is irrelevant: if the sink never reports a hard error and never accepts zero bytes
+    (any chunk sizes, any number of `Interrupted`), the call returns `Ok` and exactly the text of `to_dot_string`
+    reached the sink — whatever way `write_fmt` cuts the text into `write_all` pieces -/
+theorem dot_write_chunking_irrelevant (A : Arr) (names : List String) (pruned : Bool) (script : List Serial.Ev)
+    (h : Serial.ScriptOk script) :
+    writeDotIO A names pruned script = (toDotString A names pruned).map (fun t => (true, textBytes t)) ∧
+    ∀ pieces : List (List UInt8), writeDotPieces pieces script = (true, pieces.flatten) :=
+  ⟨writeDotIO_ok A names pruned script h, fun pieces => writeDotPieces_ok pieces script h⟩
+
+/-- any sink: what reached it is a prefix of the text, `Ok` is returned only if ALL of the text reached it (a short
+    write is never swallowed), `Err` only if the sink reported a hard error or accepted zero bytes; a hard error of
+    the first `write` call is returned -/
+theorem dot_write_faithful (pieces : List (List UInt8)) (script : List Serial.Ev) :
+    (writeDotPieces pieces script).2 <+: pieces.flatten ∧
+    ((writeDotPieces pieces script).1 = true → (writeDotPieces pieces script).2 = pieces.flatten) ∧
+    ((writeDotPieces pieces script).1 = false → ∃ e ∈ script, Serial.isFault e) ∧
+    (∀ p ps s, pieces = p :: ps → p ≠ [] → script = .fail :: s → (writeDotPieces pieces script).1 = false) := by
+  obtain ⟨a, b, c⟩ := writeDotPieces_any pieces script
+  refine ⟨a, b, c, ?_⟩
+  intro p ps s hp hne hs
+  subst hp hs
+  exact writeDotPieces_fail_first p ps s hne
+
 /-! ## non-vacuity -/
+
+/-- a sink that accepts 7 bytes per call with interruptions satisfies the hypothesis -/
+example : Serial.ScriptOk [.give 7, .interrupted, .give 1, .interrupted, .give 4096] := by
+  intro e he; simp at he; rcases he with rfl | rfl | rfl | rfl | rfl <;> exact ⟨by simp, by simp⟩
+
 
 /-- `x1 ∧ ¬x2` over 3 variables with a shared structure: a valid Bdd -/
 def exA : Arr := #[⟨3, 0, 0⟩, ⟨3, 1, 1⟩, ⟨2, 1, 0⟩, ⟨1, 0, 2⟩]
